@@ -67,6 +67,17 @@ pub fn k7_secret_share<X: Src>(src: &mut X) {
     unsafe {
         core::ptr::drop_in_place(slot.as_mut_ptr());
     }
+    // dropping (without an explicit wipe) leaves no copy of the secret in the slot either: the
+    // signing share is an inline field, readable after the heap-backed commitment is gone
+    let commitment2 = VerifiableSecretSharingCommitment::<T>::new(vec![CoefficientCommitment::new(E(9)), CoefficientCommitment::new(E(11))]);
+    let sh2 = SecretShare::<T>::new(cid(2), SigningShare::new(s), commitment2);
+    let mut slot2: MaybeUninit<SecretShare<T>> = MaybeUninit::new(sh2);
+    assert!(unsafe { (*slot2.as_ptr()).signing_share().to_scalar() } == s, "control");
+    unsafe {
+        core::ptr::drop_in_place(slot2.as_mut_ptr());
+    }
+    let after = unsafe { (*slot2.as_ptr()).signing_share().to_scalar() };
+    assert!(after == S(0), "dropping a dealer share wipes its signing share in place");
 }
 
 pub fn k7_signing_nonces<X: Src>(src: &mut X) {
